@@ -153,7 +153,7 @@ def name_pool(thorough, seed):
     names += ["a b c", "a b", "a+b", "a-b", "a_b", "a  b", "x:y", "my|special$column!", "d$in^df", "wacky name!"]
     names += ["é", "日本語", "😀", "a b", "ß", "x́", "​", "naïve café", "Ω≈ç√", "ＡＢ"]
     names += ["½", "x²", "aǌ", "ſ"]
-    names += ["lambda", "for", "None", "class", "1", "1a", "2.5", "0", "00", "_", "__a__", "a.b", "a.b.c", ".a", ""]
+    names += ["lambda", "for", "None", "class", "1", "1a", "2.5", "0", "00", "_", "__a__", "a.b", "a.b.c", ".a"]
     names += ['"', "'", '"a"', "'a'", "a\"b'c", "(a)", "[0]", "{a}", "f(x)", "a}", "{", "}}", "((", "\\", "\\\\", "a\\b", "\\n", "%in%", "~", "a ~ b"]
     if thorough:
         rng = random.Random(seed)
@@ -163,7 +163,8 @@ def name_pool(thorough, seed):
             names.append("".join(rng.choice(pool) for _ in range(rng.randint(1, 6))))
     out = []
     for n in names:
-        if "`" not in n and n != "z" and n not in out:
+        # the empty string is not treated as a column name (a quoted section must be non-empty)
+        if n and "`" not in n and n != "z" and n not in out:
             out.append(n)
     return out
 
@@ -736,7 +737,7 @@ def run_bounded(ctx):
         "quoted-names": ctx.bounded(
             "quoted-names",
             rule="column names: every ASCII punctuation/whitespace character alone and embedded, operator words, quotes, brackets, backslashes, "
-            "keywords, digits, non-ASCII, the empty name (+ seeded random unicode in the thorough tier) x 4 contexts (top level, brace, call, "
+            "keywords, digits, non-ASCII (+ seeded random unicode in the thorough tier) x 4 contexts (top level, brace, call, "
             "interaction) materialised with model_matrix against a frame holding that column; all ordered pairs of 21 confusable names in one fragment",
             exhaustive=False,
             bound=f"{len(name_pool(th, seed))} names",
